@@ -31,25 +31,38 @@ type st struct {
 }
 
 type sim struct {
-	k      *kernel.K
-	disk   *simdisk.Disk
-	tries  *state.Tries
-	ss     *state.InmemoryStorageState
-	states []*st
-	valCtr int
-	curVer su.Version // the chain's current runtime state version (monotone over the run)
-	dupChildren bool  // knob: allow two child tries with identical content (known finding)
-	zeroNibble  bool  // knob: allow prefixes whose last byte has a zero low nibble (known finding)
-	nestedLimit bool  // knob: allow a limited clear that cuts between a key and a longer key it prefixes (known finding)
-	keys   [][]byte
-	cks    [][]byte
-	prevV  [][]byte
+	k           *kernel.K
+	disk        *simdisk.Disk
+	tries       *state.Tries
+	ss          *state.InmemoryStorageState
+	states      []*st
+	valCtr      int
+	curVer      su.Version // the chain's current runtime state version (monotone over the run)
+	dupChildren bool       // knob: allow two child tries with identical content (known finding)
+	zeroNibble  bool       // knob: allow prefixes whose last byte has a zero low nibble (known finding)
+	nestedLimit bool       // knob: allow a limited clear that cuts between a key and a longer key it prefixes (known finding)
+	keys        [][]byte
+	cks         [][]byte
+	prevV       [][]byte
+	sm          *modules.StateModule // one RPC module for the whole run (what it remembers between requests matters)
+	best        *st                  // the stored state of the simulated best block
+	lastBestPx  []byte               // prefix of the last enumeration at the best block
 }
 
 // storageAdapter lets the real RPC StateModule run over the real storage state
 // without a block state: "block hash" is mapped to the state root itself.
 type storageAdapter struct {
 	*state.InmemoryStorageState
+	best func() *common.Hash // the state root of the simulated best block (a nil block in a request means that one)
+}
+
+// GetKeysWithPrefix: the real storage state turns a nil root into the best block's state root through
+// the block state; here the simulator says which stored state is the best block's.
+func (a storageAdapter) GetKeysWithPrefix(root *common.Hash, prefix []byte) ([][]byte, error) {
+	if root == nil && a.best != nil {
+		root = a.best()
+	}
+	return a.InmemoryStorageState.GetKeysWithPrefix(root, prefix)
 }
 
 func (a storageAdapter) GetStateRootFromBlock(bhash *common.Hash) (*common.Hash, error) {
@@ -81,6 +94,7 @@ func (s *sim) newOpen() {
 		panic(err)
 	}
 	s.ss = ss
+	s.sm = nil // the RPC module of the new process starts empty
 }
 
 var keyBytes = []byte{0x00, 0x01, 0x10, 0x11, 0xf0, 0xff, 0x0a, 0xa0}
@@ -793,6 +807,9 @@ func (s *sim) store() bool {
 	}
 	w.stored = true
 	w.root = root
+	if s.best == nil || k.Bool(1, 2, "becomes-best-block") {
+		s.best = w // a new block was imported on top: requests without a block now mean this state
+	}
 	k.Event("store", "s%d root=%x keys=%d children=%d", w.id, root[:4], w.model.Main.Len(), len(w.model.Children))
 	if w.parent > 0 {
 		k.Probe("incremental-store-on-stored-parent")
@@ -924,10 +941,31 @@ func (s *sim) page() {
 	k := s.k
 	ss := s.storedStates()
 	x := ss[k.Choose(len(ss), "page-which")]
+	atBest := s.best != nil && s.best.stored && k.Bool(1, 3, "page-at-best-block")
+	if atBest {
+		x = s.best
+	}
 	m := x.model
 	root := x.root
-	sm := modules.NewStateModule(nil, storageAdapter{s.ss}, nil, nil)
+	if s.sm == nil {
+		s.sm = modules.NewStateModule(nil, storageAdapter{InmemoryStorageState: s.ss, best: func() *common.Hash {
+			r := s.best.root
+			return &r
+		}}, nil, nil)
+	}
+	sm := s.sm
 	p := s.genPrefix()
+	if atBest {
+		if s.lastBestPx != nil && k.Bool(1, 2, "same-prefix-as-last-time") {
+			p = s.lastBestPx
+		}
+		s.lastBestPx = p
+		k.Probe("paged-at-best-block")
+	}
+	blockArg := &root
+	if atBest {
+		blockArg = nil
+	}
 	want := m.Main.KeysWithPrefix(p)
 	qty := uint32(1 + k.Choose(len(want)+2, "page-size"))
 	k.Event("page", "s%d prefix=%s qty=%d (%d match, cached=%v)", x.id, hx(p), qty, len(want), s.tries.VerifHas(root))
@@ -935,7 +973,7 @@ func (s *sim) page() {
 	after := ""
 	for pages := 0; pages < len(want)+3; pages++ {
 		var res modules.StateStorageKeysResponse
-		req := &modules.StateStorageKeyRequest{Prefix: fmt.Sprintf("0x%x", p), Qty: qty, AfterKey: after, Block: &root}
+		req := &modules.StateStorageKeyRequest{Prefix: fmt.Sprintf("0x%x", p), Qty: qty, AfterKey: after, Block: blockArg}
 		if err := sm.GetKeysPaged(nil, req, &res); err != nil {
 			s.viol("C38", "paging", "get-keys-paged-failed", "GetKeysPaged failed: %v", err)
 		}
